@@ -1,19 +1,18 @@
 CONSTANTS
   MinKeys = 0
-  MaxKeys = 2
-  NI = 3
-  MaxRF = 2
+  MaxKeys = 0
+  NI = 6
+  MaxRF = 6
   Shape = "any"
   Grain = "atomic"
   Gate = FALSE
   EmptyFix = TRUE
   AllowCancel = TRUE
-  EarlyExits = FALSE
-  MaxConc = 3
+  EarlyExits = TRUE
+  MaxConc = 9
   Spawn = "go"
   Record = FALSE
-SPECIFICATION FairSpec
+SPECIFICATION TSpec
 INVARIANTS TypeOK SingleSend ReturnsOnce SuccessMeansQuorum ErrorMeansNoQuorum ErrorIsReal ChannelErrorIsReal
-           EarlyError LastAnswerError DecidedIsDelivered SuccessDelivered NoHang CalledExactly CleanupOnceAfterAll
-PROPERTIES Termination
-CHECK_DEADLOCK TRUE
+           EarlyError LastAnswerError DecidedIsDelivered SuccessDelivered NoHang CalledExactly CleanupOnceAfterAll Report
+CHECK_DEADLOCK FALSE
